@@ -101,20 +101,7 @@ requires
     mp_fits(patterns@, old(character_class_registry).view()), mp_off(patterns@, patterns@.len() as int, old(character_class_registry).view()) < u32::MAX,
     la_fits(patterns@, mp_th(patterns@, patterns@.len() as int, old(character_class_registry).view()).1),
 ensures
-    r matches Ok(d) ==> {
-        let pats = patterns@;
-        let reg0 = old(character_class_registry).view();
-        let reg1 = mp_th(pats, pats.len() as int, reg0).1;
-        exists|m: MultiPatternNfa, d0: CompiledDfa, reps: Seq<StateID>, dm: CompiledDfa| {
-            // the union of the Thompson automata, epsilon-eliminated, minimized (dm: what Minimizer::minimize returned for d0) ...
-            &&& #[trigger] mp_built(pats, reg0, m) && #[trigger] elim_ok(g_mp(m), d0, reps) && #[trigger] min_of(d0, dm)
-            &&& d0.terminal_ids@ == Seq::new(pats.len(), |i: int| tid_of(pats[i]))
-            &&& d.states == dm.states && d.end_states == dm.end_states && d.terminal_ids == dm.terminal_ids
-            // ... plus, per token type, the compiled lookahead of the last pattern carrying one
-            &&& la_map_ok(pats, reg1, pats.len() as int, dm.lookaheads@, d.lookaheads@)
-            &&& final(character_class_registry).view() == la_reg(pats, pats.len() as int, reg1)
-        }
-    },
+    r matches Ok(d) ==> dfa_built(patterns@, old(character_class_registry).view(), d, final(character_class_registry).view()),
 ''',
     edits=[
         Ins('body_start', None, '''
